@@ -42,6 +42,7 @@ OPS = [
     ("q_from_rotation_y", "q1", "Quat::from_rotation_y(r.s0 * 1.7)"), ("q_from_rotation_z", "q1", "Quat::from_rotation_z(-r.s0)"),
     ("q_from_euler_zyx", "q1", "Quat::from_euler(EulerRot::ZYX, r.s0, r.t0, -r.s0 * 0.5)"), ("q_from_euler_xyx", "q0", "Quat::from_euler(EulerRot::XYX, r.t0, r.s0, r.p0)"),
     ("q_from_euler_yxzex", "q1", "Quat::from_euler(EulerRot::YXZEx, r.p0, r.t0, r.s0)"), ("q_from_scaled_axis", "q1", "Quat::from_scaled_axis(r.v0)"),
+    ("q_from_scaled_axis_tiny", "q1", "Quat::from_scaled_axis(r.v0 * 1.0e-30)"), ("d_from_scaled_axis_tiny", "d0", "DQuat::from_scaled_axis(DVec3::new(r.v0.x as f64, r.v0.y as f64, r.v0.z as f64) * 1.0e-200)"),
     ("q_from_rotation_arc", "q1", "Quat::from_rotation_arc(r.u0, r.u1)"), ("q_from_rotation_arc_colinear", "q0", "Quat::from_rotation_arc_colinear(r.u1, r.u0)"),
     ("q_from_mat3", "q1", "Quat::from_mat3(&r.r0)"), ("q_from_mat4", "q0", "Quat::from_mat4(&r.m1)"), ("q_from_affine3", "q1", "Quat::from_affine3(&r.a0)"),
     ("q_look_to_rh", "q1", "Quat::look_to_rh(r.u0, r.u0.any_orthonormal_vector())"), ("q_look_to_lh", "q0", "Quat::look_to_lh(r.u1, r.u1.any_orthonormal_pair().1)"),
